@@ -29,13 +29,21 @@ def main():
     demo = meta['demo_cmd']
     intake = {'at': time.strftime('%Y-%m-%d %H:%M'), 'worktree': wt}
     env = dict(os.environ, CARGO_NET_OFFLINE='true')
+    # the worktree is first reset to exactly the delivered patch (git stash is shared between worktrees and
+    # must not be used; the authors ran concurrently)
+    patch = os.path.join(so, 'patch.diff')
+    sh('git checkout -- crates Cargo.toml', cwd=wt)
+    rc, out = sh('git apply %s' % patch, cwd=wt)
+    if rc:
+        print('PATCH DOES NOT APPLY in the author worktree:', out[-300:])
+        return
     rc1, out1 = sh(demo, cwd=wt, env=env)
     intake['demo_with_change'] = 'exit %d: %s' % (rc1, out1.strip().split('\n')[-1][:200])
-    sh('git stash', cwd=wt)
+    sh('git apply -R %s' % patch, cwd=wt)
     try:
         rc0, out0 = sh(demo, cwd=wt, env=env)
     finally:
-        sh('git stash pop', cwd=wt)
+        sh('git apply %s' % patch, cwd=wt)
     intake['demo_without_change'] = 'exit %d: %s' % (rc0, out0.strip().split('\n')[-1][:200])
     print('demo with change   :', intake['demo_with_change'])
     print('demo without change:', intake['demo_without_change'])
